@@ -31,6 +31,7 @@ import (
 
 type c05Case struct {
 	MaxWorkers  int
+	InitWorkers int `json:",omitempty"` // > 0: the attack starts with this many workers and grows its pool up to MaxWorkers while it runs (0: starts with MaxWorkers)
 	Hits        int
 	Transport   string // instant | gosched | sleep
 	TargetYield bool
@@ -215,7 +216,11 @@ func evalC05(c c05Case) (overlaps int64, err error) {
 	if c.RateFreq > 0 {
 		pacer = c05CountedConst{vegeta.ConstantPacer{Freq: c.RateFreq, Per: time.Duration(c.RatePerUS) * time.Microsecond}, uint64(c.Hits)}
 	}
-	opts := []func(*vegeta.Attacker){vegeta.Client(client), vegeta.Workers(uint64(c.MaxWorkers)), vegeta.MaxWorkers(uint64(c.MaxWorkers))}
+	initWorkers := c.MaxWorkers
+	if c.InitWorkers > 0 {
+		initWorkers = c.InitWorkers
+	}
+	opts := []func(*vegeta.Attacker){vegeta.Client(client), vegeta.Workers(uint64(initWorkers)), vegeta.MaxWorkers(uint64(c.MaxWorkers))}
 	if c.TailFailEvery > 0 {
 		opts = append(opts, vegeta.MaxBody(8))
 	}
@@ -359,9 +364,13 @@ func TestC05Order(t *testing.T) {
 				c.Hits = 150 * c.MaxWorkers // each hit costs up to 3 ms of targeter time
 			}
 		}
+		if c.MaxWorkers >= 2 && rapid.Bool().Draw(t, "grows") {
+			// the usual configuration: a few workers to begin with, more as the attack needs them
+			c.InitWorkers = rapid.SampledFrom([]int{1, 1, 2, (c.MaxWorkers + 1) / 2}).Draw(t, "initworkers")
+		}
 		overlaps, err := evalC05(c)
 		nt := overlaps >= 1000 || c.RateFreq > 0 // (paced cases: the attack fell behind its pacer and caught up, several times)
-		vh.Case("C05.order", fmt.Sprintf("%+v", c), nt, "transport:"+c.Transport, fmt.Sprintf("timeouts:%v", c.TimeoutMS > 0), fmt.Sprintf("transport-errors:%v", c.ErrEvery > 0), fmt.Sprintf("own-seq-header:%v", c.OwnSeqHdr), fmt.Sprintf("paced-with-stalls:%v", c.RateFreq > 0), fmt.Sprintf("malformed-targets:%v", c.BadEvery > 0))
+		vh.Case("C05.order", fmt.Sprintf("%+v", c), nt, "transport:"+c.Transport, fmt.Sprintf("timeouts:%v", c.TimeoutMS > 0), fmt.Sprintf("transport-errors:%v", c.ErrEvery > 0), fmt.Sprintf("own-seq-header:%v", c.OwnSeqHdr), fmt.Sprintf("paced-with-stalls:%v", c.RateFreq > 0), fmt.Sprintf("malformed-targets:%v", c.BadEvery > 0), fmt.Sprintf("pool-grows-while-attacking:%v", c.InitWorkers > 0))
 		vh.Count("C05.order", "hits", c.Hits)
 		vh.Count("C05.order", "overlapping_transport_entries", int(overlaps))
 		vh.Sample("C05.order", nt, c)
